@@ -191,3 +191,45 @@ FACETS = [
     Facet('np/density_matrix', f_density, strategy=lambda t: st_density(4 if t == 'quick' else 5), examples={'quick': 800, 'thorough': 40000}, shards={'quick': 1, 'thorough': 4}),
     Facet('np/shadow-snapshots', f_shadow, strategy=lambda t: st_shadow(4), examples={'quick': 1500, 'thorough': 60000}, shards={'quick': 3, 'thorough': 12}),
 ]
+
+
+def f_density_large(case):
+    """N - r up to 11 active stabilizers: group-level oracle (every element once, weight 2^-N, correct sign); no dense matrices."""
+    N = case['N']
+    S, c = C.dec_state('np', case['state'])
+    r = case['state']['r']
+    Ls, Ks, _ = C.state_rows(case['state'])
+    G = ref.RefGroup(Ls[r:N], Ks[r:N])
+    dm = S.density_matrix
+    l, k = B.read_list(dm)
+    cs = np.asarray(dm.cs)
+    check(len(k) == 2 ** (N - r), 'density_matrix has %d terms, expected %d (N=%d r=%d)' % (len(k), 2 ** (N - r), N, r), 'dm-count')
+    strs = {tuple(x) for x in l.tolist()}
+    check(len(strs) == len(k), 'density_matrix lists %d distinct strings in %d terms' % (len(strs), len(k)), 'dm-distinct')
+    check(np.allclose(np.abs(cs), 2.0 ** -N), 'density_matrix weights differ from 2^-%d' % N, 'dm-weight')
+    for j in range(len(k)):
+        coef = cs[j] * 1j ** int(k[j]) * 2.0 ** N        # must be +1 for the element with the sign the group gives it
+        kk = {1: 0, -1: 2}.get(int(round(coef.real)), None) if abs(coef.imag) < 1e-9 else None
+        check(kk is not None and G.contains(l[j], kk) == 1, 'density_matrix term %s is not a group element with the right sign' % ref.show(l[j], k[j]), 'dm-membership')
+    return {'nt': r < N and bool((Ks[r:N] == 2).any()), 'sub_evals': len(k), 'labels': ['N=%d' % N, 'active=%d' % (N - r)]}
+
+
+def st_density_large():
+    return st.integers(8, 11).flatmap(lambda N: st.fixed_dictionaries(
+        {'N': st.just(N), 'state': st.fixed_dictionaries({'rows': gen.st_clifford_rows(N, max_word=4 * N), 'r': st.integers(0, max(0, N - 8))})}))
+
+
+def f_binary_repr(case):
+    """kernel behind density_matrix: binary_repr(arange(2^w)) rows are the w-bit big-endian expansions, also beyond one byte."""
+    import pyclifford.utils as pu
+    w = case['w']
+    ints = np.arange(2 ** w)
+    out = np.asarray(pu.binary_repr(ints)) if not case['explicit'] else np.asarray(pu.binary_repr(ints, width=w))
+    exp = np.array([[(i >> (w - 1 - b)) & 1 for b in range(w)] for i in range(2 ** w)], dtype=np.int64).reshape(2 ** w, w)
+    check(out.shape == exp.shape and (out == exp).all(), 'binary_repr(arange(2^%d)) wrong (shape %r)' % (w, out.shape), 'binary_repr')
+    return {'nt': w >= 9, 'labels': ['w=%d' % w]}
+
+
+FACETS.append(Facet('np/density_matrix-large-N', f_density_large, strategy=lambda t: st_density_large(), examples={'quick': 40, 'thorough': 1500}, shards={'quick': 2, 'thorough': 8}))
+FACETS.append(Facet('np/binary_repr', f_binary_repr, kind='enum', cases=lambda t, s, n: ({'w': w, 'explicit': e} for w in range(1, 14 if t == 'quick' else 17) for e in (False, True)),
+                    exhaustive=lambda t: True))
